@@ -342,11 +342,13 @@ Srv_None ==
   /\ polled' = TRUE
   /\ UNCHANGED <<hvars, cvars, ci, frags, srvOut, delivered, echoq, closed, failed, dropped, desync, cm, pushed>>
 
-\* end of stream inside (blocking: also before) a frame: read_exact fails -> ReadError
+\* end of stream inside (blocking: also before) a frame: read_exact fails -> ReadError.
+\* Leniency EofPollEither: a poll at the end of the stream with nothing pending returns `nothing yet' today (Ok(0) on
+\* the header read, Srv_None); the statement only restricts WHEN `nothing yet' may be reported, so reporting the end of
+\* the stream as an error there is accepted as well.
 Srv_Eof ==
   /\ call = "recv" /\ ~desync
   /\ cst = "shut" /\ Observe(sentB)
-  /\ ~(NB /\ sentB = ConsumedB)
   /\ IF ci = Len(wire) THEN TRUE ELSE sentB < ConsumedB + CWire(wire[ci + 1])
   /\ call' = "idle" /\ last' = "error" /\ failed' = TRUE /\ frags' = <<>>
   /\ sock' = IF NB THEN "blocking" ELSE sock
